@@ -39,8 +39,8 @@ Theorem C03_model_refines_spec : forall D s density natural_density ws v rho,
 Proof. exact nsf_model_refines_spec. Qed.
 Print Assumptions C03_model_refines_spec.
 
-(* every record of the regenerated neutron table that has an SLD satisfies those data facts *)
-Theorem C03_table_records_ok : forall z a, has_sld (nd_rec the_nd z a) = true -> rec_okb the_nd z a = true.
+(* every record of the regenerated neutron table that has a scattering length satisfies those data facts *)
+Theorem C03_table_records_ok : forall z a, is_someb (r_bc (nd_rec the_nd z a)) = true -> rec_okb the_nd z a = true.
 Proof. exact the_nd_ok. Qed.
 Print Assumptions C03_table_records_ok.
 
@@ -182,23 +182,15 @@ Theorem C03_missing_gives_none : forall D s density natural_density ws rho,
 Proof. exact missing_gives_none. Qed.
 Print Assumptions C03_missing_gives_none.
 
-Theorem C03_no_scattering_length_no_data : forall D a, spec_has_data D a = false -> has_data D a = false.
-Proof. exact no_b_c_no_data. Qed.
-Print Assumptions C03_no_scattering_length_no_data.
-
-(* full strength ("every compound whose atoms all have tabulated neutron data gets numbers") is
-   REFUTED by the faithful model: RaO3 at density 5 — Ra has b_c, cross sections and a mass, but no
-   element density, and has_sld() demands one although the calculation does not use it *)
-Theorem C03_values_iff_tabulated_refuted :
-  exists s rho w, (forall p, In p (atoms_of s) -> spec_has_data the_nd (fst p) = true) /\
-                  neutron_scattering the_nd s (Some rho) None [w] = ONone.
-Proof. exact values_iff_tabulated_refuted. Qed.
-Print Assumptions C03_values_iff_tabulated_refuted.
-
-(* what holds: None exactly when some atom has no SLD of its own *)
-Theorem C03_values_iff_sld_partial : forall D s density natural_density ws rho,
+(* both directions, at full strength: (None, None, None) exactly when some atom has no tabulated
+   scattering length (the density of the pure element is not asked for: RaO3 gets numbers) *)
+Theorem C03_none_iff_missing_data : forall D s density natural_density ws rho,
   density_of_compound D s density natural_density = Some rho ->
   (neutron_scattering D s density natural_density ws = ONone <->
-   exists p, In p (atoms_of s) /\ has_data D (fst p) = false).
-Proof. exact values_iff_sld_partial. Qed.
-Print Assumptions C03_values_iff_sld_partial.
+   exists p, In p (atoms_of s) /\ spec_has_data D (fst p) = false).
+Proof. exact none_iff_missing_data. Qed.
+Print Assumptions C03_none_iff_missing_data.
+
+Theorem C03_radium_compound_has_values : ra_check the_nd = true.
+Proof. exact ra_witness_c. Qed.
+Print Assumptions C03_radium_compound_has_values.
